@@ -274,6 +274,15 @@ inline void pushFlush(const Mode& m) {
   b = FLUSH2;
   env::fdPush(&b, 1);
 }
+// C20 variant: the judged suffix arrives after everything before it has been processed (input that was
+// already buffered when the implementation closed the transport on an adapter reset is discarded by
+// design and is not "subsequent" input): a second, identical suffix after the drain
+inline void secondSuffix(Cfg* c, const Mode& m) {
+  if (!m.san || stopped(*c)) return;
+  pushFlush(m);
+  runLoop(c, m.pat);
+  drain(c);
+}
 // bytes the reference sees after the stream
 inline void appendFlush(const Mode& m, std::vector<uint8_t>* s) {
   s->push_back(FLUSH1);
@@ -439,6 +448,7 @@ inline Obs runStateless(const Mode& m, const Part& p, bool* clockOk = nullptr) {
     runLoop(&c, m.pat);
   }
   drain(&c);
+  secondSuffix(&c, m);
   deactivate(&c);
   if (clockOk) *clockOk = c.clock - startClock < 900;
   env::fdClear();
